@@ -57,6 +57,7 @@ type Exec struct {
 	choiceSeq    []int
 	explicitIn   []int
 	concreteMode bool
+	deferredGo   []func()
 	allObjs      []*Object
 	allMaps      []*MapV
 	allChans     []*ChanV
@@ -857,6 +858,8 @@ func (ex *Exec) f2i(t *Term, to Sort) Value {
 	}
 	return ex.ts.F2I(t, to)
 }
+
+func (ex *Exec) f2iNoCheck(t *Term) *Term { return ex.ts.F2I(t, SInt(64, true)) }
 
 func (ex *Exec) typeAssert(x *ssa.TypeAssert, v Value) Value {
 	iv, ok := v.(*IfaceV)
